@@ -265,6 +265,24 @@ func c03Levels(tier string) []core.Level {
 			}
 		}},
 	}
+	lv = append(lv, core.Level{Name: "verbatim sections written with '-' markers on either tag (no adjacent whitespace to trim), every body, alone / in every wrapper", Gen: func(emit func(core.Case)) {
+		opens := [][2]string{{"{%- verbatim %}", "{%-verbatim%}"}, {"{% verbatim -%}", "{%verbatim-%}"}, {"{%- verbatim -%}", "{%-verbatim-%}"}}
+		closes := [][2]string{{"{% endverbatim %}", "{%endverbatim%}"}, {"{%- endverbatim %}", "{%-endverbatim%}"}, {"{% endverbatim -%}", "{%endverbatim-%}"}, {"{%- endverbatim -%}", "{%-endverbatim-%}"}}
+		for _, b := range c03VerbatimBodies() {
+			if b == "" || strings.ContainsAny(b[:1], " \n\t") || strings.ContainsAny(b[len(b)-1:], " \n\t") {
+				continue // whitespace next to a marker would be trimmed by Twig: not claimed
+			}
+			for _, o := range opens {
+				for _, c := range closes {
+					v := c03Code(o[0]+b+c[0], o[1]+b+c[1], b)
+					c03Emit(emit, c03Concat(c03Text("a"), v, c03Text("b")), "verbatim-markers")
+					for w := 0; w < c03Wrappers; w++ {
+						c03Emit(emit, c03Concat(c03Text("<"), c03Wrap(w, c03Concat(c03Text("p"), v, c03Text("q")), 1), c03Text(">")), "verbatim-markers")
+					}
+				}
+			}
+		}
+	}})
 	nest3 := core8[:5]
 	if thorough(tier) {
 		nest3 = core8
@@ -307,7 +325,7 @@ func init() {
 		Category: "exploration",
 		Rule: "programs assembled from pieces whose output is known by construction: 14 literal chunks (multi-byte, newline, lone '{' '}' '%' '#', closing delimiters), a print, comments, verbatim sections over ~80 bodies (incl. prints, tags, comments, lone delimiters), and 7 wrappers (if, for over 2 elements, block, set-capture + print, identity filter section, macro + call, else branch) nested to depth 3; " +
 			"every sequence of <= 4 chunks, <= 2 leaves (3 over a core; thorough: 3 over all), every wrapper x leaf / leaf pair, all wrapper pairs and triples; each in the canonical spelling and with no blanks inside delimiters. Programs whose concatenation creates an opening delimiter inside literal text are skipped and counted. Oracle: output equals the by-construction expectation byte for byte. distinct = distinct source; non-trivial = contains a delimiter",
-		Assumptions: []string{"prints inside a macro body use a literal (stick's macro scope differs from Twig's for outer variables)", "no whitespace-control markers (covered by C14 for the no-adjacent-whitespace case)"},
+		Assumptions: []string{"prints inside a macro body use a literal (stick's macro scope differs from Twig's for outer variables)", "whitespace-control markers only on verbatim tags and only without adjacent whitespace (elsewhere covered by C14)"},
 		Levels:      c03Levels,
 		Run:         c03RunOrSkip,
 		Budget:      budget(4*time.Minute, 20*time.Minute),
